@@ -38,8 +38,9 @@ type c08case struct {
 }
 
 type c08scan struct {
-	Canon []string
-	Errs  []string
+	Canon  []string
+	Errs   []string
+	Edited string // set when a parameter's Value() changed because the handler edited what Scan returned
 }
 
 var c08types = []uint32{pg.OIDInt4Array, pg.OIDTextArray, pg.OIDBool, pg.OIDInt2, pg.OIDInt4, pg.OIDInt8, pg.OIDFloat4, pg.OIDFloat8, pg.OIDText, pg.OIDVarchar, pg.OIDBytea, pg.OIDUUID, pg.OIDOid, pg.OIDDate, pg.OIDTimestamp, pg.OIDTimestamptz}
@@ -438,7 +439,19 @@ func (ch c08) runCase(c *core.Ctx, env *hs.Env, k c08case, idx int) {
 			} else {
 				sc.Canon = append(sc.Canon, pg.Canon(k.POIDs[i], v))
 			}
+			if b, ok := v.([]byte); ok {
+				// what Scan returned is the handler's: it decrypts / unmasks it in place
+				for j := range b {
+					b[j] ^= 0x5a
+				}
+			}
 			sc.Errs = append(sc.Errs, "")
+		}
+		// ... and the parameters are still what the client sent
+		for i, p := range params {
+			if i < len(k.PRaw) && string(p.Value()) != string(k.PRaw[i]) {
+				sc.Edited = fmt.Sprintf("parameter %d: Value() is %s after the handler edited what Scan had returned, sent %s", i, hexs(p.Value()), hexs(k.PRaw[i]))
+			}
 		}
 		hs.ConnOf(ctx).CB("scan", sc)
 	}
@@ -550,6 +563,10 @@ func (ch c08) runCase(c *core.Ctx, env *hs.Env, k c08case, idx int) {
 	}
 	if rec == nil || sc == nil {
 		viol("trace", "statement function did not run", "")
+		return
+	}
+	if sc.Edited != "" {
+		viol("value", "what Parameter.Scan returns shares memory with the bound parameter: a handler editing the decoded value changes the parameter", sc.Edited)
 		return
 	}
 	if len(rec.Params) != len(k.PRaw) {
